@@ -373,20 +373,21 @@ Proof.
     repeat split; auto. eapply Reach_trans; eauto.
 Qed.
 
+Lemma closure_edges_spec tasks E u t :
+  In (u, t) (closure_edges tasks E) <-> In u tasks /\ In t tasks /\ reachb E u t = true.
+Proof.
+  unfold closure_edges. rewrite in_flat_map. split.
+  - intros [t' [Ht H]]. rewrite in_map_iff in H. destruct H as [a [Heq Ha]].
+    inversion Heq; subst. apply filter_In in Ha. tauto.
+  - intros (Hu & Ht & R). exists t. split; auto. apply in_map_iff. exists u.
+    split; auto. apply filter_In. auto.
+Qed.
+
 Lemma closure_edges_sound tasks E u t :
   In (u, t) (closure_edges tasks E) -> In u tasks /\ In t tasks /\ Reach E u t.
 Proof.
-  unfold closure_edges. rewrite in_flat_map. intros [t' [Ht H]].
-  rewrite in_map_iff in H. destruct H as [a [Heq Ha]]. inversion Heq; subst.
-  apply filter_In in Ha. destruct Ha as [Ha Hm]. apply memN_In in Hm.
-  repeat split; auto.
-  assert (R : Reach (flip E) t u).
-  { apply reachb_sound. unfold reachb. apply memN_In. exact Ha. }
-  clear - R. induction R as [a b H|a w b H _ IH].
-  - apply R1. unfold flip in H. apply in_map_iff in H. destruct H as [[x y] [Hq Hi]].
-    simpl in Hq. inversion Hq; subst. exact Hi.
-  - eapply Reach_snoc; [exact IH|]. unfold flip in H. apply in_map_iff in H.
-    destruct H as [[x y] [Hq Hi]]. simpl in Hq. inversion Hq; subst. exact Hi.
+  intros H. apply closure_edges_spec in H. destruct H as (A & B & R).
+  repeat split; auto. apply reachb_sound. exact R.
 Qed.
 
 (* Together with [handed_after_ancestors]: in a sorter whose edges satisfy
